@@ -49,3 +49,24 @@ claim('C05',
       'Trusted: Lean kernel, correspondence harness, fpylll as oracle (answers recorded at rsa_util.lll.reduce). powMod is proved equal to b^e mod m.',
       'Lean 4 proof (Pollard clause; completeness given the oracle row) + differential correspondence with recorded oracle answers',
       'DESIGN.md section 5 C05')
+
+claim('C09',
+      'Lean theorems (Props/C09.lean), all universally quantified with no size bound: (1) hnparams — for every prime order n and every d, k, z, r, s with '
+      's = k^-1 (z + r d) in ZMod n, k != 0, s != 0, HiddenNumberParams(r,s,z) returns (a,b), a,b < n, with k = a + b d (mod n); generalised to any n >= 2 with gcd(s,n) = 1 '
+      '(r, s, z negative or >= n included) and ZeroDivisionError exactly when gcd(s,n) != 1; (2) transform_rfc6979 — for every n > 0, hlen and h < 2^hlen, '
+      'TransformOrderLen(h,hlen) = bits2int of RFC 6979 section 2.3.2 (stated over explicit bit lists, MSB first) on the hlen-bit string of h, reduced mod n, for hlen shorter, equal and '
+      'longer than qlen = bit_length(n) incl. qlen = 521; "% n" equals RFC 6979\'s single conditional subtraction because bits2int < 2^qlen <= 2n; (3) ECDSAValues = Bytes2Int on r, s and '
+      'TransformOrderLen(Bytes2Int(hash), 8*len(hash)), i.e. bits2int of the hash\'s own bit sequence mod n, for every byte string incl. empty; end-to-end nonce_relation theorem over the '
+      'byte fields; (4) Bytes2Int(Int2Bytes(v)) = v for all v >= 0, Int2Bytes(Bytes2Int(b)) = b without leading zero bytes, Int2Bytes(v<0) raises OverflowError, Hex2Bytes on L hex digits gives '
+      'ceil(L/2) bytes with the same base-16 value (odd length padded on the LEFT), only ValueError otherwise; (5) invMod (gmpy2.invert) specification with fuel sufficiency. '
+      'Model tied to /repo by differential correspondence on all 9 curves of CURVE_FACTORY (orders read at run time): ~7.6k cases per run — real SHA-1..SHA-512 digests, synthetic 0..80-byte hashes, '
+      'r/s with leading zero bytes in the protobuf fields, signatures from an independent textbook ECDSA (r as x-coordinate of kG via an independent affine ladder, and random r), s = 0 mod n, composite toy orders.',
+      'Trusted: Lean kernel, correspondence harness, protobuf shim. Primality of the 9 curve orders is a hypothesis of hnparams (validated per run by gmpy2.is_prime; hnparams_general needs only gcd(s,n)=1). '
+      'Only the order n enters these functions, so no EC point arithmetic is involved. bytes.fromhex whitespace handling is modelled (CPython 3.12 semantics) and differentially tested, the theorem covers digit-only strings.',
+      'Lean 4 proofs over an executable model mirroring ec_util.py/util.py + differential correspondence with the Python implementation',
+      'DESIGN.md section 5 C09')
+
+NOT_CLAIMED['C06'] = ('EC half pending (CheckValidECKey / CheckWeakCurve: validKey_iff, weakCurve_iff). RSA half is built and green: Props/C06.lean proves '
+                      'sizes_iff (flagged <-> n < 2^2047), exponent_iff (all byte encodings), hasDlog_iff, roca_iff, rocaVariant_iff, openssl_iff (every digest oracle, every list), '
+                      'keypair_step (every table, every generator oracle), %X formatting lemmas, roca_tuples_spec and the exact acceptance rates; harness/corr/c06.py '
+                      '(correspondence_rsa) is the correspondence; `./check C06` runs it. Shipped keypair table coverage (768 seeds) is a finite data check in the thorough tier.')
